@@ -4,6 +4,7 @@ package core
 
 import (
 	"fmt"
+	"math"
 	"sort"
 	"strconv"
 	"strings"
@@ -75,6 +76,8 @@ type Call struct {
 	J   int      `json:"j,omitempty"`
 	X   float64  `json:"x,omitempty"`
 	Y   float64  `json:"y,omitempty"`
+	XS  string   `json:"xs,omitempty"` // "nan" | "+inf" | "-inf" overrides X (JSON has no such numbers)
+	YS  string   `json:"ys,omitempty"`
 	Re  string   `json:"re,omitempty"`
 	Z   *ZOpt    `json:"z,omitempty"`
 	NilK bool    `json:"nilk,omitempty"` // pass a nil key slice
@@ -117,9 +120,9 @@ func (c Call) String() string {
 	case "LRem", "LSet":
 		fmt.Fprintf(&sb, ",%d", c.I)
 	case "ZAdd":
-		fmt.Fprintf(&sb, ",%v", c.X)
+		fmt.Fprintf(&sb, ",%v", c.FX())
 	case "ZRangeByScore", "ZCount":
-		fmt.Fprintf(&sb, ",%v,%v", c.X, c.Y)
+		fmt.Fprintf(&sb, ",%v,%v", c.FX(), c.FY())
 		if c.Z != nil {
 			fmt.Fprintf(&sb, ",%+v", *c.Z)
 		}
@@ -272,3 +275,115 @@ func sortedCopy(items []string) []string {
 }
 
 func fmtScore(f float64) string { return strconv.FormatFloat(f, 'g', -1, 64) }
+
+func special(s string, f float64) float64 {
+	switch s {
+	case "nan":
+		return math.NaN()
+	case "+inf":
+		return math.Inf(1)
+	case "-inf":
+		return math.Inf(-1)
+	}
+	return f
+}
+
+// FX returns the first float argument.
+func (c Call) FX() float64 { return special(c.XS, c.X) }
+
+// FY returns the second float argument.
+func (c Call) FY() float64 { return special(c.YS, c.Y) }
+
+// Symptom classifies how a result departs from the expectation ("" when it is acceptable).
+func (e Expect) Symptom(r Res) string {
+	if e.Check(r) == "" {
+		return ""
+	}
+	if r.Panic != "" {
+		return "panic"
+	}
+	if r.Err {
+		return "err-for-ok"
+	}
+	if e.Err == 1 {
+		return "ok-for-err"
+	}
+	if r.Val == "nil" {
+		return "nil"
+	}
+	if e.Pred != nil || e.AnyVal {
+		return "pred"
+	}
+	if strings.HasPrefix(r.Val, "[") && strings.HasPrefix(e.Val, "[") {
+		got, want := splitList(r.Val), splitList(e.Val)
+		gs, ws := map[string]bool{}, map[string]bool{}
+		for _, g := range got {
+			gs[g] = true
+		}
+		for _, w := range want {
+			ws[w] = true
+		}
+		missing, extra := 0, 0
+		for w := range ws {
+			if !gs[w] {
+				missing++
+			}
+		}
+		for g := range gs {
+			if !ws[g] {
+				extra++
+			}
+		}
+		switch {
+		case missing > 0 && extra > 0:
+			return "wrong-items"
+		case missing > 0:
+			return "missing"
+		case extra > 0:
+			return "extra"
+		case len(got) != len(want):
+			return "dup"
+		default:
+			return "order"
+		}
+	}
+	return "wrong-value"
+}
+
+// Mismatch is one call whose result the model does not allow.
+type Mismatch struct {
+	Idx     int
+	Call    Call
+	Got     Res
+	Want    string
+	Symptom string
+	Msg     string
+}
+
+func (m Mismatch) String() string {
+	pre := ""
+	if m.Idx > 0 {
+		pre = fmt.Sprintf("call %d ", m.Idx)
+	}
+	return pre + m.Call.String() + ": " + m.Msg
+}
+
+// ArgClass abstracts the arguments of a call to the class that selects a code path.
+func ArgClass(c Call) string {
+	switch c.F {
+	case "PrefixScan", "PrefixSearchScan":
+		switch {
+		case c.I > 0:
+			return "(off)"
+		case c.J == -1:
+			return "(nolimit)"
+		case c.J == 0:
+			return "(lim0)"
+		}
+		return "(lim)"
+	}
+	return ""
+}
+
+// Atom names the failing call site and symptom.
+func (m Mismatch) Atom() string { return m.Call.F + ArgClass(m.Call) + ":" + m.Symptom }
